@@ -28,9 +28,10 @@ Proof. cbn zeta. split; [constructor|]. vm_compute. split; reflexivity. Qed.
 Print Assumptions C17_loaded_once_witness.
 
 (* With a global repository a repeated load of a cached file returns the cached model, opens
-   nothing and leaves the repository as it was (the model processors run again on it). *)
+   nothing and leaves the repository as it was; the model processors are NOT run again on it (fact
+   model_processors_on_cached = false, translated from internal_model_from_file). *)
 Theorem C17_global_cache : forall fs c f s m,
-  cglobal c = true -> dget f (allm s) = Some m -> flag_of fmp m s = false ->
+  cglobal c = true -> dget f (allm s) = Some m ->
   fst (load_main fs c f s) = inr m /\ reads (snd (load_main fs c f s)) = [] /\ allm (snd (load_main fs c f s)) = allm s.
 Proof. exact cached_load_returns_cached. Qed.
 Print Assumptions C17_global_cache.
@@ -39,7 +40,7 @@ Example C17_global_cache_witness :
   let fs := [mkFile [[1]] [100%N] [101%N] false false false; mkFile [[0]] [101%N] [100%N] false false false] in
   let c := init_cfg true false [] in
   let s := snd (load_main fs c 0 (init_state [])) in
-  dget 1 (allm s) = Some 1 /\ flag_of fmp 1 s = false /\ fst (load_main fs c 1 s) = inr 1.
+  dget 1 (allm s) = Some 1 /\ fst (load_main fs c 1 s) = inr 1.
 Proof. vm_compute. repeat split; reflexivity. Qed.
 Print Assumptions C17_global_cache_witness.
 
